@@ -190,16 +190,26 @@ class Sim(object):
 
         # spinning idle sources count as "nothing to do" once they stop changing anything
         spinning = False
-        if nodes and not pipes and not udp and self.only_idle_ready():
+        if nodes and not pipes and not udp:
+            only_idle = self.only_idle_ready()
             fp = self._fingerprint()
             if fp == self._spin_fp:
                 self._spin_count += 1
             else:
                 self._spin_fp = fp
                 self._spin_count = 0
-            if self._spin_count >= 6 * max(1, len(self.world.nodes)):
+            # a socket watch that is dispatched over and over without reading, writing, signalling or changing any source is a
+            # busy loop of the real program too: nothing will ever change except by a timer (much longer run required than for
+            # idle sources, whose spinning is ordinary)
+            # (once established, the same unread sockets after a timer has run are recognised quickly)
+            io_fp = tuple((pipe.read_total, len(pipe.rxbuf)) for pipe in self.net.pipes)
+            known = (not only_idle) and io_fp == getattr(self, '_livelock_io_fp', None)
+            if self._spin_count >= (6 if (only_idle or known) else 300) * max(1, len(self.world.nodes)):
                 spinning = True
                 self.spin_detected += 1
+                if not only_idle:
+                    self.livelock_detected = getattr(self, 'livelock_detected', 0) + 1
+                    self._livelock_io_fp = io_fp
         else:
             self._spin_fp = None
             self._spin_count = 0
